@@ -2,6 +2,7 @@
 Instances are registered under property id 'C14' with names c14w_*; kvlib/props/c14.py holds the
 truncated-load half. Stub set 'ghost_file' is defined in kvlib/props/c12.py (imported first)."""
 from kvlib.registry import inst, extra, stubset, STUBS
+from kvlib import registry as _registry
 
 P = 'C14'
 
@@ -16,30 +17,31 @@ stubset('push_panic_cut', [('core::result::unwrap_failed', 'stubs_file::unwrap_f
 # An io::Error's tag bits are not resolved during symbolic execution, so the `Interrupted => retry` arm of the
 # real write_all keeps its loop open up to the bound: give that loop its true bound (short write + failing write = 2).
 WA = {r'io::Write>::write_all$': 3}
-GHOST = dict(stubs=['ghost_file'], models=['close_model.c'], unwind=98, unwindset=WA)
-FAIL = dict(stubs=['ghost_file', 'push_panic_cut'], models=['close_model.c'], unwind=98, unwindset=WA)
+stubset('no_eintr', [('std::io::Error::is_interrupted', 'stubs_file::never_interrupted')])
+GHOST = dict(stubs=['ghost_file', 'no_eintr'], models=['close_model.c'], unwind=98, unwindset=WA)
+FAIL = dict(stubs=['ghost_file', 'push_panic_cut', 'no_eintr'], models=['close_model.c'], unwind=98, unwindset=WA)
 
 # (1) failing sink: no stubs at all
 for l in (0, 1, 64, 65, 128, 191):
-    inst(P, 'c14w_sink_raw_l%d' % l, 'c14w::sink_raw(%d)' % l, unwind=98, unwindset=WA, tier='quick' if l in (0, 65) else 'thorough', shape={'len': l},
+    inst(P, 'c14w_sink_raw_l%d' % l, 'c14w::sink_raw(%d)' % l, unwind=98, unwindset=WA, stubs=['no_eintr'], tier='quick' if l in (0, 65) else 'thorough', shape={'len': l},
          desc='RawVector %d symbolic bits into a sink that fails after b < size bytes (b, short/abrupt symbolic): Err, <= b bytes taken, prefix' % l)
 for (w, n) in ((7, 0), (13, 5), (64, 3), (1, 5), (63, 3), (32, 2)):
-    inst(P, 'c14w_sink_int_w%d_n%d' % (w, n), 'c14w::sink_int(%d, %d)' % (w, n), unwind=98, unwindset=WA, tier='quick' if (w, n) in ((7, 0), (13, 5)) else 'thorough',
+    inst(P, 'c14w_sink_int_w%d_n%d' % (w, n), 'c14w::sink_int(%d, %d)' % (w, n), unwind=98, unwindset=WA, stubs=['no_eintr'], tier='quick' if (w, n) in ((7, 0), (13, 5)) else 'thorough',
          shape={'width': w, 'len': n}, desc='IntVector %dx%d into a failing sink' % (n, w))
 for n in (0, 1, 4):
-    inst(P, 'c14w_sink_vec_u64_n%d' % n, 'c14w::sink_vec_u64(%d)' % n, unwind=98, unwindset=WA, tier='quick' if n in (0, 4) else 'thorough', shape={'len': n},
+    inst(P, 'c14w_sink_vec_u64_n%d' % n, 'c14w::sink_vec_u64(%d)' % n, unwind=98, unwindset=WA, stubs=['no_eintr'], tier='quick' if n in (0, 4) else 'thorough', shape={'len': n},
          desc='Vec<u64> len %d into a failing sink' % n)
-    inst(P, 'c14w_sink_option_vec_n%d' % n, 'c14w::sink_option_vec(%d)' % n, unwind=98, unwindset=WA, tier='quick' if n == 1 else 'thorough', shape={'len': n},
+    inst(P, 'c14w_sink_option_vec_n%d' % n, 'c14w::sink_option_vec(%d)' % n, unwind=98, unwindset=WA, stubs=['no_eintr'], tier='quick' if n == 1 else 'thorough', shape={'len': n},
          desc='Option<Vec<u64>> Some(len %d) and None into a failing sink' % n)
 for n in (0, 1, 8, 9, 17):
-    inst(P, 'c14w_sink_bytes_n%d' % n, 'c14w::sink_bytes(%d)' % n, unwind=98, unwindset=WA, tier='quick' if n in (0, 9) else 'thorough', shape={'len': n},
+    inst(P, 'c14w_sink_bytes_n%d' % n, 'c14w::sink_bytes(%d)' % n, unwind=98, unwindset=WA, stubs=['no_eintr'], tier='quick' if n in (0, 9) else 'thorough', shape={'len': n},
          desc='Vec<u8> len %d (body + padding are separate writes) into a failing sink' % n)
-inst(P, 'c14w_sink_option_raw_l65', 'c14w::sink_option_raw(65)', unwind=98, unwindset=WA, tier='thorough', shape={'len': 65}, desc='Option<RawVector> into a failing sink')
+inst(P, 'c14w_sink_option_raw_l65', 'c14w::sink_option_raw(65)', unwind=98, unwindset=WA, stubs=['no_eintr'], tier='thorough', shape={'len': 65}, desc='Option<RawVector> into a failing sink')
 
 # (2) buffered writers. Shapes with a non-empty final flush so that close() itself is reached with work to do,
 # and shapes with flushes during the pushes (push-panic path cut, see FAIL).
 MODEL = {'limit': 'c14w::LIMIT', 'budget': 'c14w::BUDGET'}
-INT = [((13, 3, 3), True), ((13, 3, 4), False), ((63, 1, 3), True), ((64, 1, 3), True), ((33, 1, 4), False), ((64, 2, 5), False), ((13, 3, 6), False), ((40, 2, 5), False)]
+INT = [((13, 3, 3), True), ((13, 3, 4), False), ((63, 1, 3), True), ((64, 2, 3), True), ((33, 1, 4), False), ((64, 2, 5), False), ((13, 3, 6), False), ((40, 2, 5), False)]
 for (w, b, k), quick in INT:
     for m in ('limit', 'budget'):
         inst(P, 'c14w_int_%s_w%d_b%d_k%d' % (m, w, b, k), 'c14w::int_fail(%d, %d, %d, %s)' % (w, b, k, MODEL[m]),
@@ -62,32 +64,17 @@ for (w, b, k) in ((13, 3, 4), (64, 1, 3), (63, 1, 4)):
          shape={'width': w, 'buf_items': b, 'pushes': k}, desc='positive control: file-size limit == final size suffices, file complete', **GHOST)
 inst(P, 'c14w_open_fail', 'c14w::open_fail(13, 3)', desc='open() fails: both writers return Err from creation, nothing opened/closed/written', **GHOST)
 
-# Instances in which the REAL code drops an io::Error (Drop of a writer whose close() fails). The drop glue of
-# io::Error is opaque to symbolic execution and recurses through an unresolved indirect call up to the recursion
-# bound = --unwind (measured: x2.8 per level, unwind 98 does not finish). So: global unwind 3, true bounds per loop.
-DEEP = dict(stubs=['ghost_file', 'push_panic_cut'], models=['close_model.c'], unwind=3, cap=900, mem=8, unwindset={
-    r'io::Write>::write_all$': 3,
-    r'^c12::|^c14w::|^c05::|^stubs_file::': 98,
-    r'File as std::io::Write>::write$': 98,       # ghost_write (a stub carries the name of what it replaces)
-    r'^__rust_|^mem(cmp|cpy|set|move)$|^strlen$': 98,
-    r'path::|slice::Iter|slice::memchr|os_str::': 12,
-})
-for m in ('limit', 'budget'):
-    inst(P, 'c14w_create_fail_%s' % m, 'c14w::create_fail(13, 3, %s)' % MODEL[m], tier='quick' if m == 'limit' else 'thorough',
-         shape={'width': 13, 'buf_items': 3, 'fault': m + ' < 32 bytes'},
-         desc='creation under every %s too small for the placeholder header: with_buf_len returns Err, no panic (incl. Drop of the half-built writer)' % m, **DEEP)
-for (w, b, k) in ((13, 3, 3), (63, 1, 3)):
-    inst(P, 'c14w_drop_after_fail_w%d_b%d_k%d' % (w, b, k), 'c14w::drop_after_fail(%d, %d, %d)' % (w, b, k), tier='quick' if w == 13 else 'thorough',
-         shape={'width': w, 'buf_items': b, 'pushes': k, 'fault': 'limit'},
-         desc='close() fails under every file-size limit 32 <= L < size, then the open writer is dropped: errors ignored, no panic, descriptor closed', **DEEP)
-
 extra(P, assumptions=[
-    'c14w failing sink: a Write impl in the harness (no stubs) that accepts b bytes in total, b < size symbolic; the write crossing the budget is short or fails outright (symbolic choice); later writes fail; errors are io::ErrorKind::Other simple values',
-    'c14w buffered writers: ghost file (harness/src/stubs_file.rs; OpenOptions::open, <File as Write>::write, <File as Seek>::seek replaced; real write_all loop; close(2) from models/close_model.c). Fault models: LIMIT = file-size limit as Linux RLIMIT_FSIZE (write at/after the limit fails, straddling write is short; native replay uses the real setrlimit(RLIMIT_FSIZE) with SIGXFSZ ignored); BUDGET = the device takes b bytes in total counting header rewrites (ghost only: native replay reports not-applicable, so a counterexample there is reported as inconclusive, never as a pass)',
+    'c14w failing sink: a Write impl in the harness that accepts b bytes in total, b < size symbolic; the write crossing the budget is short or fails outright (symbolic choice); later writes fail with io::ErrorKind::Other; the real write_all loop runs over it; std::io::Error::is_interrupted is stubbed to false (no error in these harnesses has kind Interrupted; the tag bits of io::Error are opaque to symbolic execution, the retry arm of write_all would otherwise stay open)',
+    'c14w buffered writers: ghost file (harness/src/stubs_file.rs; OpenOptions::open, <File as Write>::write, <File as Seek>::seek replaced; real write_all loop; close(2) from models/close_model.c). Fault models: LIMIT = file-size limit as Linux RLIMIT_FSIZE (write at/after the limit fails, straddling write is short; native replay uses the real setrlimit(RLIMIT_FSIZE) with SIGXFSZ ignored); BUDGET = the device takes b bytes in total counting the header rewrite (ghost only: native replay reports not-applicable, so a counterexample there is reported as inconclusive, never as a pass)',
+    'c14w: a failing write(2) is modelled as write() returning Ok(0), which the REAL write_all turns into Err(ErrorKind::WriteZero); it is not modelled as Err(e) because the drop glue of io::Error inside write_all does not finish under CBMC. The writers never inspect the error value (they propagate it with ? or unwrap it). Natively the kernel returns EFBIG',
+    'c14w: the fault is armed after creation has written the placeholder header (equivalent to a fault range that starts at the header size); faults persist (a write that failed keeps failing); the content of the ghost file is not kept in fault instances (lengths only)',
     'c14w push panics: push documents "May panic from I/O errors". core::result::unwrap_failed is replaced by a path cut (assume(false)), so an execution ends where the REAL code unwraps the flush error; if push swallowed the error instead, the execution would continue to the assertion that close() is not Ok. A panic raised in any other way than Result::unwrap/expect would be reported as a failure',
-    'c14w faults persist (a write that failed keeps failing); transient failures / short writes that later succeed are covered without faults in C12 (chopped instances)',
-], coverage={'outside_bounds': [
+    'c14w: results of type io::Result are inspected with is_err() and then forgotten (mem::forget) in the harness, writers are forgotten after a failed close: running the drop glue of io::Error does not finish under CBMC (indirect call through core::io::OsFunctions with every drop function as candidate, recursion up to the unwind bound)',
+], coverage={'outside_bounds': list(_registry._EXTRA.get(P, {}).get('coverage', {}).get('outside_bounds', [])) + [   # extra() replaces the list: keep what kvlib/props/c14.py (loaded first) registered
     'c14w: writer shapes beyond those listed (<= 6 pushes, buffers <= 128 bits, files <= 96 bytes); the 8 MiB default buffer of ::new',
-    'c14w: errors from seek(2)/close(2) (the writers ignore close errors by design: File is dropped)',
-    'c14w: what the file contains after a reported failure; behaviour of Drop after a failed close beyond "does not panic"',
+    'c14w NOT DECIDED (attempted, CBMC out of memory or spurious alarm): creation of a writer under a fault that fails the placeholder header (with_buf_len must return Err; the half-built writer is dropped inside it); Drop of a writer whose close() failed ("errors are ignored", must not panic); a retry of RawVectorWriter::close() after a failed close (spurious __rust_dealloc alarm that does not reproduce natively; the retry is decided for IntVectorWriter::close())',
+    'c14w: a mutant that swallows the flush error by DROPPING it (let _ = self.flush(..)) makes the instance run out of memory (inconclusive, exit 2), it is only reported as VIOLATION when the error is swallowed without running its drop glue',
+    'c14w: transient faults. Observed natively outside the bound (not an instance): after close() failed with a partial write under RLIMIT_FSIZE, lifting the limit and calling close() again returns Ok(()) and leaves a file with the partial bytes duplicated (44 instead of 40 bytes for 3 x 13 bit)',
+    'c14w: errors from seek(2)/close(2) (the writers ignore close errors by design: File is dropped); what the file contains after a reported failure',
 ]})
